@@ -12,6 +12,7 @@
 use std::fmt::Write as _;
 use std::io::Write as _;
 
+pub mod leafgen;
 pub mod plonk;
 
 pub const P: u64 = 0xFFFF_FFFF_0000_0001;
